@@ -26,7 +26,8 @@ func (c02) Meta() fw.Meta {
 			"oracle: from the ACTUAL state before the op and the actual post-state of the directly written (finest) archive, recompute every coarser level: touched intervals, known finer values (stored interval must match), " +
 			"float32 known-fraction test, aggregate folded in time order, unchanged slots bit-identical, recursion only from stored slots; expected coarser rings must equal the actual ones bit for bit. A panic in an update is a violation. " +
 			"non-trivial = case stored and skipped (by xff or zero-known) at least one coarser slot; distinct by (layout, clock, ops)." +
-			" Every 4th case with average/sum/last/first also writes NaN payloads, infinities and huge finite values (NaN results compare equal whatever their payload).",
+			" Every 4th case with average/sum/last/first also writes NaN payloads, infinities and huge finite values (NaN results compare equal whatever their payload)." +
+			" Every 5th case lets batches carry points ahead of the clock (also as the only points of a batch on an empty archive).",
 		Assumptions: []string{
 			"clock domain: maxRetention + 2*maxStep <= now and now + 2*maxStep < 2^32",
 			"xFilesFactor boundary uses the float32 quotient; ops in which the exact rational and the float32 quotient disagree about >= xff are don't-care (counted as dontcare_ops, state resynchronised)",
